@@ -30,7 +30,7 @@ def check(ctx: Ctx, ev: Evidence) -> list[Finding]:
     ev.rule("C04-R1", "counter discipline and exact limit comparison of the EOF/ACK, Finished/ACK and deferred NAK procedures", 12)
     ev.rule("C04-R2", "accepted missing data (file data written, Metadata accepted) during the deferred procedure resets count and timer", 2)
     ev.rule("C04-R3", "with a silent peer (no inbound PDU, timers free) every reachable abstract state can reach idle, except the documented waits", 10)
-    ev.rule("C04-R4", "both handlers' notice of cancellation abandon the transaction when a cancellation is already in progress", 2)
+    ev.rule("C04-R4", "a retry-limit fault declared while a cancellation is already in progress abandons the transaction (both handlers, on every ATS edge)", 2)
     src, dst = ctx.ats("source"), ctx.ats("dest")
     for key in ("eof_ack", "fin_ack", "nak"):
         p = PROCS[key]
@@ -128,15 +128,34 @@ def check(ctx: Ctx, ev: Evidence) -> list[Finding]:
             out.append(Finding("C04-R3", f"{which} handler | silent-peer trap | cycle through {', '.join(steps)} | mode {mode}",
                                f"with a silent peer the handler never returns to idle: timer expiries cycle through {', '.join(steps)} forever ({len(trapped)} abstract states lead only into this cycle)",
                                "", {"path_to_state": [str(x.label) for x in path][-12:], "state": a.describe(node)}))
-    # R4
-    for which in ("source", "dest"):
-        fi = ctx.prog.functions.get(f"cfdppy.handler.{which}.{'SourceHandler' if which == 'source' else 'DestHandler'}._notice_of_cancellation")
-        if fi is None:
-            raise AnalysisError(f"_notice_of_cancellation of the {which} handler not found")
-        has = any(isinstance(n, ast.Call) and isinstance(n.func, ast.Attribute) and n.func.attr == "_abandon_transaction" for n in ast.walk(fi.node))
-        ev.inst("C04-R4", f"{which} handler | notice of cancellation has an abandon arm: {has}", "ok" if has else "violation", f"{fi.file}:{fi.node.lineno}")
-        if not has:
-            out.append(Finding("C04-R4", f"{which} handler | _notice_of_cancellation | no abandon arm", "a fault during the cancel exchange does not abandon the transaction (the other handler does)", f"{fi.file}:{fi.node.lineno}"))
+    # R4 (semantic sibling cross-check): a fault declared while the transaction is already being cancelled must abandon
+    for which, a in (("source", src), ("dest", dst)):
+        n_ok = n_bad = 0
+        bad_edge = None
+        for e in a.edges:
+            if e.exc is not None:
+                continue
+            if which == "source":
+                cancelling = ename(a.h.wget(e.pre, "_params.cond_code_eof")) not in ("None", "NO_ERROR", "'<na>'")
+            else:
+                cancelling = ename(a.h.wget(e.pre, "_params.completion_disposition")) == "CANCELED"
+            if not cancelling or state_of(a, e.pre) != "BUSY":
+                continue
+            faults = [x for x in e.ev if x.kind == "env" and x.name in ("fault.abandoned_cb", "fault.notice_of_cancellation_cb")]
+            if not faults:
+                continue
+            abandoned = all(x.name == "fault.abandoned_cb" for x in faults) and state_of(a, e.post) == "IDLE"
+            if abandoned:
+                n_ok += 1
+            else:
+                n_bad += 1
+                bad_edge = bad_edge or e
+        k = f"{which} handler | limit fault during the cancel exchange => abandoned and idle: {n_ok} paths abandon, {n_bad} do not"
+        ev.inst("C04-R4", k, "ok" if n_bad == 0 and n_ok > 0 else "violation")
+        if n_bad or not n_ok:
+            out.append(Finding("C04-R4", f"{which} handler | limit fault during the cancel exchange does not abandon",
+                               "a retry-limit fault declared while the transaction is already being cancelled re-cancels instead of abandoning (the sibling handler abandons): the cancel exchange can repeat forever",
+                               "", witness_of(a, bad_edge) if bad_edge is not None else None))
     ev.extra["explanation"] = "timer / counter / fault / PDU events on every ATS edge of both handlers for the three retry procedures; backward reachability of idle over packet-less edges from every reachable abstract state"
     ev.assume("Countdown expires after its interval (spacepackets); a timer created or re-armed in a call does not expire within that call")
     return out
